@@ -507,6 +507,116 @@ def rule_R11(text, applied, arg=None):
     return t
 
 
+def _receiver_start(m_text, dot_pos):
+    """Start offset of the method-chain receiver that ends just before the `.` at dot_pos."""
+    p = dot_pos
+    while True:
+        q = p - 1
+        while q >= 0 and m_text[q] in " \t\n":
+            q -= 1
+        if q < 0:
+            return p
+        if m_text[q] in ")]":
+            q = match_open_idx(m_text, q)
+            # a call: identifier before the paren
+            r = q - 1
+            while r >= 0 and (m_text[r].isalnum() or m_text[r] == "_"):
+                r -= 1
+            p = r + 1
+        elif m_text[q].isalnum() or m_text[q] == "_":
+            r = q
+            while r >= 0 and (m_text[r].isalnum() or m_text[r] == "_"):
+                r -= 1
+            p = r + 1
+        else:
+            return p
+        # continue through `.` or `::`
+        r = p - 1
+        while r >= 0 and m_text[r] in " \t\n":
+            r -= 1
+        if r >= 0 and m_text[r] == ".":
+            p = r
+            continue
+        if r >= 1 and m_text[r - 1:r + 1] == "::":
+            p = r - 1
+            continue
+        return p
+
+
+def match_open_idx(m_text, close_idx):
+    from rustlex import match_open
+    return match_open(m_text, close_idx)
+
+
+def rule_R14(text, applied):
+    """Option combinators applied to a closure literal are desugared into `match` (their std definition):
+    `E.map_or(D, |x| B)` -> `match E { Some(x) => B, None => D }`, `E.and_then(|x| B)` ->
+    `match E { Some(x) => B, None => None }`, `E.map(|x| B)` -> `match E { Some(x) => Some(B), None => None }`."""
+    cnt = 0
+    while True:
+        m_text = mask(text)
+        m = re.search(r"\.\s*(map_or|and_then|map)\s*\(", m_text)
+        if not m:
+            break
+        op = m.end() - 1
+        cp = match_close(m_text, op)
+        inner, inner_m = text[op + 1:cp], m_text[op + 1:cp]
+        parts = split_top_level(inner_m, inner)
+        which = m.group(1)
+        clos = parts[-1].strip()
+        cm = re.match(r"\|\s*(&?\s*\w+)\s*\|\s*(.*)$", clos, re.S)
+        if not cm or (which == "map_or" and len(parts) != 2) or (which != "map_or" and len(parts) != 1):
+            raise ExtractError(f"R14: `{which}` argument is not a closure literal (outside the subset)")
+        pat, body = cm.group(1).replace(" ", ""), cm.group(2).strip()
+        start = _receiver_start(m_text, m.start())
+        recv = text[start:m.start()]
+        if which == "map_or":
+            new = f"match {recv} {{ Some({pat}) => {body}, None => {parts[0].strip()} }}"
+        elif which == "and_then":
+            new = f"match {recv} {{ Some({pat}) => {body}, None => None }}"
+        else:
+            new = f"match {recv} {{ Some({pat}) => Some({body}), None => None }}"
+        text = text[:start] + _keep_newlines(text[start:cp + 1], new) + text[cp + 1:]
+        cnt += 1
+    if cnt:
+        applied.append(f"R14x{cnt}")
+    return text
+
+
+def rule_R2set(text, applied):
+    """`*E.get_unchecked_mut(I) = V` -> `E[I] = V` (in-bounds becomes an obligation)."""
+    cnt = 0
+    while True:
+        m_text = mask(text)
+        m = re.search(r"\*\s*((?:\w+\s*\.\s*)*\w+)\s*\.\s*get_unchecked_mut\s*\(", m_text)
+        if not m:
+            break
+        op = m.end() - 1
+        cp = match_close(m_text, op)
+        if not re.match(r"\s*=(?!=)", m_text[cp + 1:]):
+            raise ExtractError("R2set: `*E.get_unchecked_mut(I)` not used as an assignment target")
+        recv = "".join(text[m.start(1):m.end(1)].split())
+        new = f"{recv}[{text[op + 1:cp].strip()}]"
+        text = text[:m.start()] + _keep_newlines(text[m.start():cp + 1], new) + text[cp + 1:]
+        cnt += 1
+    if cnt:
+        applied.append(f"R2setx{cnt}")
+    return text
+
+
+def rule_R8first(text, applied):
+    """`let &X = E[A..].iter().next()?;` -> `let X = match vfirst_from(&E, A) { Some(x_) => *x_, None => return None };`
+    (vfirst_from is a verified helper whose precondition A <= E.len() is the panic condition of the slice)."""
+    m_text = mask(text)
+    m = re.search(r"\blet\s*&\s*(\w+)\s*=\s*([\w\.]+)\[([^\]]+?)\.\.\]\s*\.\s*iter\(\)\s*\.\s*next\(\)\s*\?\s*;", m_text)
+    if not m:
+        raise ExtractError("R8first: pattern not found (lost anchor)")
+    new = f"let {m.group(1)} = match vfirst_from(&{m.group(2)}, {text[m.start(3):m.end(3)].strip()}) {{ Some(x_) => *x_, None => return None }};"
+    text = text[:m.start()] + _keep_newlines(text[m.start():m.end()], new) + text[m.end():]
+    applied.append("R8firstx1")
+    return text
+
+
 def rule_const(text, applied):
     """`const fn` -> `fn` (const-ness is irrelevant to behaviour)."""
     t, n = _sub_masked(text, r"\bconst\s+(?=fn\b)", lambda m, s: "")
@@ -515,7 +625,7 @@ def rule_const(text, applied):
 
 RULES = {
     "R1": rule_R1, "R2": rule_R2, "R3": rule_R3, "R4": rule_R4, "R5": rule_R5,
-    "R8max": rule_R8max, "R8cmpmax": rule_R8cmpmax, "R8resize_none": rule_R8resize_none, "R13": rule_R13, "R7": rule_R7, "R10": rule_R10, "R11": rule_R11,
+    "R8max": rule_R8max, "R8cmpmax": rule_R8cmpmax, "R8resize_none": rule_R8resize_none, "R13": rule_R13, "R14": rule_R14, "R2set": rule_R2set, "R8first": rule_R8first, "R7": rule_R7, "R10": rule_R10, "R11": rule_R11,
 }
 ALWAYS = [rule_vis, rule_tracing, rule_const]
 
@@ -768,9 +878,12 @@ def build_item(src: Source, kind, name, opts, emitter: Emitter):
             text = "pub " + text.lstrip()
         ds = opts.get("derive")
         if ds is None:
-            ds = [d for d in src.derives_before(start) if d in ("Copy", "Clone")]
+            all_ds = src.derives_before(start)
+            ds = [d for d in all_ds if d in ("Copy", "Clone")]
             if "Copy" not in ds:
                 ds = []
+            if "Default" in all_ds:
+                ds.append("Default")
         if ds:
             emitter.emit("#[derive(" + ", ".join(ds) + ")]")
     gen_start = len(emitter.lines)
